@@ -250,6 +250,7 @@ def run(ck, replay=None):
         try:
             w = make_solver(darsia, grid, form, backend)
             pin = int(w.constrained_cell_flat_index)
+            kept = []
             for (mat, reuse) in hist:
                 M = full_system(grid, pin, fws[mat])
                 rhs = random_rhs(rng, nf, nc, True)
@@ -257,6 +258,11 @@ def run(ck, replay=None):
                     warnings.simplefilter("ignore")
                     sol, _ = w.linear_solve(M.copy(), rhs.copy(), reuse_solver=bool(reuse))
                 e["errs"].append(exponent(relerr(np.asarray(sol), dense_solve(M, rhs))))
+                kept.append((sol, np.array(sol, copy=True)))
+            # what a solve returned is the caller's: later solves on the same object leave the earlier solutions as they were
+            for k_, (obj_, snap_) in enumerate(kept):
+                if not np.array_equal(np.asarray(obj_), snap_):
+                    e["errs"][k_] = 3
         except Exception as ex:  # noqa
             e["raised"] = 1
             e["error"] = repr(ex)[:160]
